@@ -35,3 +35,7 @@ pub uninterp spec fn utf8_of(c: Seq<char>) -> Seq<u8>;
 pub broadcast proof fn axiom_strb_utf8(s: &str) ensures #[trigger] strb(s) == utf8_of(s@) {}
 #[verifier::external_body]
 pub broadcast proof fn axiom_sbytes_utf8(s: String) ensures #[trigger] sbytes(s) == utf8_of(s@) {}
+
+/// str::trim: some substring of the original (nothing more is promised)
+pub assume_specification<'a>[ str::trim ](s: &'a str) -> (r: &'a str)
+    ensures exists|i: int, j: int| 0 <= i <= j <= strb(s).len() && strb(r) == #[trigger] strb(s).subrange(i, j);
